@@ -1615,11 +1615,16 @@ where
                     });
                 }
 
-                entry.size = new_entry_size;
-                let entry_ptr = EntryPtr::new(entry as *mut Entry<K, V>);
-                self.current_size += diff;
+                // Make room before accounting for the growth. The sum of the
+                // current size and the difference may exceed usize::MAX, and
+                // this way the size bound holds at every point in time. The
+                // mutated entry is the most recently used, so it stays.
+
+                let mut entry_ptr = EntryPtr::new(entry as *mut Entry<K, V>);
                 self.touch_ptr(entry_ptr);
-                self.eject_to_target(max_size);
+                self.eject_to_target(max_size - diff);
+                entry_ptr.get_mut().size = new_entry_size;
+                self.current_size += diff;
             }
             else {
                 // The operation was non-expanding; everything is ok.
